@@ -11,6 +11,34 @@ BASE_NOTE = ("Trusted base: CPython's ast parser, the engines under /verif/sa (p
              "conditions of the property - and not the value-level behaviour; see DESIGN.md for what is not decided.")
 
 CLAIMS = {
+    "C04": dict(
+        text=("Wiring / guard clauses only (the walk of the 1.84M intervals of the bundled data is NOT decided): (R04.1-2) get_utc_offset is get_zone_interval(<same instant>).wall_offset, the fixed "
+              "zone's offset is tied to its interval by construction, standard = wall - savings; (R04.3-4) min/max slots are fed by the aggregation with Offset.min/max, the aggregation visits every "
+              "period (index-coverage analysis) and the tail, every construction validates adjacency of all consecutive pairs; (R04.5) ZoneInterval membership is half-open on every ordering and "
+              "construction rejects start >= end (order domain); (R04.6) the period lookup returns a candidate only when it contains the instant, the first tail interval is clamped to the end of the "
+              "periods, and after stepping the year the recurrence admits exactly the years up to MAX / down to MIN (range prover, guard tightness); (R04.7) cache nodes cover their whole period."),
+        design_ref="DESIGN.md section 3, C04",
+        technique="static analysis: term evaluation of wiring, index-coverage and guard-tightness rules (interval abstract interpretation), order-domain evaluation",
+    ),
+    "C05": dict(
+        text=("Wiring / table / guard clauses only (exactness of the mapping over real zone data is NOT decided): (R05.1) every ZoneLocalMapping built by map_local pairs the right probes with "
+              "the right slots for counts 2/1/0, and the probes' day pre-filters leave the one day of slack that |offset| < 24h requires (linear forms); (R05.2) single/first/last and "
+              "create_mapping_resolver select by count exactly as documented; (R05.3) by effect, not name: the callables wired into the strict resolver always raise the ambiguous / skipped error, the "
+              "lenient resolver's ambiguity handler returns its first parameter and its gap handler re-expresses the local value at the offset before the gap in the offset after it; (R05.4) local+offset "
+              "construction verifies the zone's offset first, start-of-day in a gap checks the resulting date, gap bracketing returns the adjacent intervals; (R05.5) half-open membership on every "
+              "ordering; (R05.6) no calendar dropped."),
+        design_ref="DESIGN.md section 3, C05",
+        technique="static analysis: path-wise term evaluation of construction sites, dispatch-table agreement, no-return/effect summaries, order-domain evaluation",
+    ),
+    "C06": dict(
+        text=("Wiring clauses only (equality with an independent interpretation of Tzdb.nzd is NOT decided - it needs the bytes interpreted twice): (R06.1) field-handler table: every key is a field id, "
+              "routes to an existing builder handler, required builder slots are filled, single-field / string-pool preconditions come first; (R06.2) id list = sorted canonical ids + aliases, for_id "
+              "passes (requested id, canonical id) and every returning path of create_zone depends on the requested id while the data is keyed by the canonical id, fixed-offset ids fall back to the "
+              "fixed-zone parser; (R06.3) zone-type dispatch covers every type member with the documented reader; (R06.4) reader discipline (optional byte tested with `is None`, reader/writer sequence "
+              "agreement); (R06.5) recurrence year stepping admits every Gregorian year."),
+        design_ref="DESIGN.md section 3, C06",
+        technique="static analysis: table/dispatch agreement, path-wise term evaluation (argument-slot agreement), sequence-language comparison",
+    ),
     "C13": dict(
         text=("Static rules on the cache-validity and publication discipline that makes history and interleaving irrelevant: (R13.1) year-start cache: masks/shifts consistent, over the abstractly "
               "evaluated year span of all 18 concrete calculators (index, validator) determines the year and the invalid marker is unreachable, and every cache user indexes, validates and fills the "
